@@ -33,8 +33,10 @@ pub fn guarded<T>(f: impl FnOnce() -> T) -> Option<T> {
 
 pub fn mkframe(a: u16, t: u8, d: Vec<u8>, borrowed: bool) -> Frame<'static> {
     if borrowed {
-        let leaked: &'static [u8] = Box::leak(d.into_boxed_slice());
-        Frame::new(Address(a), MsgType(t), Data::try_new(leaked).expect("data too long"))
+        // borrowed data is a sub-slice of somebody else's buffer: it starts at any alignment and has other bytes
+        // before and after it (where, is decided by its content)
+        let off = (d.iter().map(|b| *b as usize).sum::<usize>() + d.len()) % 9;
+        mkframe_borrowed_at(a, t, &d, off)
     } else {
         // owned data arrives in buffers of every provenance: exactly sized, or with spare capacity left over from
         // whatever built them (every third block, decided by its content)
@@ -47,6 +49,31 @@ pub fn mkframe(a: u16, t: u8, d: Vec<u8>, borrowed: bool) -> Frame<'static> {
         };
         Frame::new(Address(a), MsgType(t), Data::try_new(d).expect("data too long"))
     }
+}
+
+/// A frame whose data is borrowed from the middle of a longer buffer: `off` bytes (0xA5) before it, 11 bytes (0x5A) after.
+pub fn mkframe_borrowed_at(a: u16, t: u8, d: &[u8], off: usize) -> Frame<'static> {
+    let mut buf = vec![0xA5u8; off];
+    buf.extend_from_slice(d);
+    buf.extend_from_slice(&[0x5A; 11]);
+    let leaked: &'static [u8] = Box::leak(buf.into_boxed_slice());
+    Frame::new(Address(a), MsgType(t), Data::try_new(&leaked[off..off + d.len()]).expect("data too long"))
+}
+
+/// Evaluates `f` on the frame with owned data or, for borrowed data, on the data borrowed at every offset 0..=16 of a
+/// longer buffer: where the bytes happen to lie in memory must not matter, so the first result that differs from the
+/// others is the one reported.
+fn at_every_alignment(a: u16, t: u8, d: Vec<u8>, borrowed: bool, f: impl Fn(&Frame<'static>) -> String) -> String {
+    let first = f(&mkframe(a, t, d.clone(), borrowed));
+    if borrowed {
+        for off in 0..=16usize {
+            let r = f(&mkframe_borrowed_at(a, t, &d, off));
+            if r != first {
+                return r;
+            }
+        }
+    }
+    first
 }
 
 /// Reply script element for the scripted bus.
@@ -430,14 +457,16 @@ fn eval_case_inner(line: &str) -> String {
     let t: Vec<&str> = line.split(' ').filter(|s| !s.is_empty()).collect();
     match t[0] {
         "ENC" | "ENCB" => {
-            let f = mkframe(num(t[1]), num(t[2]), bytes_of_hex(t[3]), t[0] == "ENCB");
-            match guarded(|| (f.to_bytes(), f.to_bytes_with_newline())) {
-                None => "PANIC".to_string(),
-                Some((a, b)) => format!("{} {}", hex_of_bytes(&a), hex_of_bytes(&b)),
-            }
+            at_every_alignment(num(t[1]), num(t[2]), bytes_of_hex(t[3]), t[0] == "ENCB", |f| {
+                match guarded(|| (f.to_bytes(), f.to_bytes_with_newline())) {
+                    None => "PANIC".to_string(),
+                    Some((a, b)) => format!("{} {}", hex_of_bytes(&a), hex_of_bytes(&b)),
+                }
+            })
         }
         "RT" | "RTB" => {
-            let f = mkframe(num(t[1]), num(t[2]), bytes_of_hex(t[3]), t[0] == "RTB");
+            at_every_alignment(num(t[1]), num(t[2]), bytes_of_hex(t[3]), t[0] == "RTB", |f| {
+            let f: Frame<'static> = f.clone(); // a clone of borrowed data borrows the same bytes
             let r = guarded(|| {
                 let a = f.to_bytes();
                 let b = f.to_bytes_with_newline();
@@ -459,6 +488,7 @@ fn eval_case_inner(line: &str) -> String {
                 format!("{} {} | {} | {}", hex_of_bytes(&a), hex_of_bytes(&b), one(&a), one(&b))
             });
             r.unwrap_or_else(|| "PANIC".to_string())
+            })
         }
         "NEW" => {
             let v = vec![0u8; num::<usize>(t[1])];
